@@ -159,6 +159,30 @@ def diff(a: Dict[str, Any], b: Dict[str, Any], tol: Optional[float] = None) -> O
     return None
 
 
+def grads_close_globally(a: Dict[str, Any], b: Dict[str, Any], rel: float) -> bool:
+    """True if every gradient pair differs by at most rel x (largest |value| among all
+    gradients): float-rounding level, irrespective of how small an individual tensor is."""
+    ga, gb = a.get("grads"), b.get("grads")
+    if ga is None or gb is None:
+        return ga is None and gb is None
+    pairs = list(zip(ga["in"], gb["in"])) + [(ga["params"][n], gb["params"].get(n)) for n in ga["params"]]
+    scale = 0.0
+    for x, y in pairs:
+        for t in (x, y):
+            if isinstance(t, torch.Tensor) and t.numel():
+                scale = max(scale, float(t.abs().max()))
+    for x, y in pairs:
+        if (x is None) != (y is None):
+            return False
+        if x is None:
+            continue
+        if x.shape != y.shape or x.dtype != y.dtype:
+            return False
+        if x.numel() and float((x - y).abs().max()) > rel * max(scale, 1e-30):
+            return False
+    return True
+
+
 def _mag(x: Any, y: Any) -> str:
     try:
         if x is None or y is None:
